@@ -45,6 +45,12 @@ ASSUMPTIONS = [
     "sit on another staff in another measure, or have single notes on the other staff), gap-free voices, equal-duration chords, Tuplet "
     "objects for tuplet groups and symbolic durations on every note (what the two writers can express); the "
     "comparison is per note object (onset, duration in quarters, MIDI pitch, staff), ties not merged",
+    "export->load, note values left to the library: a note/chord/rest without symbolic_duration is exportable when its "
+    "numeric duration is one note value (type + 0..3 dots; GenericNote.symbolic_duration documents the estimate as "
+    "consistent with the numeric duration); save_kern also accepts a voice that starts after / stops before the barline "
+    "(it calls fill_rests) when each gap is one note value - gaps needing two tied values are written as one wrong rest "
+    "(estimate_symbolic_duration refuses composite values) and are kept outside the quantifier; save_mei has no rest "
+    "filling, so gapped voices are not exportable to MEI",
 ]
 CHUNK = 8  # the kern writer needs 0.1-0.3 s per part: small work items keep all workers busy in the small kern spaces
 
